@@ -83,11 +83,9 @@ impl Syllable {
 
     pub(crate) fn insert_segment(&mut self, pos: usize, seg: &Segment, mods: &Option<Modifiers>, alphas: &RefCell<HashMap<char, Alpha>>, err_pos: Position) -> Result<i8, RuleRuntimeError> {
         let mut lc = 0;
-        if pos > self.segments.len() {
-            self.segments.push_back(*seg);
-        } else {
-            self.segments.insert(pos, *seg);
-        }
+        // a position past the end means the end (the modifiers below must find the segment where it went)
+        let pos = pos.min(self.segments.len());
+        self.segments.insert(pos, *seg);
 
         if let Some(m) = mods {
             lc += self.apply_seg_mods(alphas, m, pos, err_pos)?;
